@@ -283,7 +283,7 @@ func c05GenInflux(rng *h.Rng, odd bool) c05Case {
 		precOk = 0
 		sh.add("bad-precision")
 	}
-	kinds := []string{"", `"s"`, "1i", "2.5", "true"}
+	kinds := []string{"", `"s"`, "1i", "2.5", "true", "7u"}
 	var lines, trees []string
 	nl := 1 + rng.Intn(4)
 	for i := 0; i < nl; i++ {
@@ -298,7 +298,7 @@ func c05GenInflux(rng *h.Rng, odd bool) c05Case {
 		if rng.Chance(50) {
 			msg = 1
 			if odd && rng.Chance(30) {
-				msg = 2 + rng.Intn(3)
+				msg = 2 + rng.Intn(4)
 				sh.add("message-not-string")
 			}
 			fields = append(fields, "message="+kinds[msg])
@@ -308,7 +308,7 @@ func c05GenInflux(rng *h.Rng, odd bool) c05Case {
 			no = 1
 		}
 		for j := 0; j < no; j++ {
-			k := 1 + rng.Intn(4)
+			k := 1 + rng.Intn(5)
 			fields = append(fields, fmt.Sprintf("f%d=%s", j, kinds[k]))
 			others = append(others, c05Tn(k))
 		}
@@ -329,6 +329,7 @@ func c05GenInflux(rng *h.Rng, odd bool) c05Case {
 // ---------------------------------------------------------------- OTLP AnyValue trees
 type c05Anyv struct {
 	kind int // 0 absent, 1 scalar, 2 array, 3 kvlist
+	sk   int // scalar: 0 non-empty string, 1 empty string, 2 int, 3 bool, 4 oneof unset, 5 bytes
 	kids []c05Anyv
 }
 
@@ -347,7 +348,11 @@ func c05GenAnyV(rng *h.Rng, odd bool, depth int, allowAbsent bool, sh *c05Shapes
 		}
 		return a
 	}
-	return c05Anyv{kind: 1}
+	sk := 0
+	if rng.Chance(50) {
+		sk = 1 + rng.Intn(5)
+	}
+	return c05Anyv{kind: 1, sk: sk}
 }
 func (a c05Anyv) tree() string {
 	switch a.kind {
@@ -367,14 +372,16 @@ func (a c05Anyv) proto(rng *h.Rng) *v11.AnyValue {
 	case 0:
 		return nil
 	case 1:
-		switch rng.Intn(5) {
-		case 0:
-			return &v11.AnyValue{Value: &v11.AnyValue_IntValue{IntValue: 7}}
+		switch a.sk {
 		case 1:
-			return &v11.AnyValue{Value: &v11.AnyValue_BoolValue{BoolValue: true}}
+			return &v11.AnyValue{Value: &v11.AnyValue_StringValue{StringValue: ""}}
 		case 2:
-			return &v11.AnyValue{} // oneof unset
+			return &v11.AnyValue{Value: &v11.AnyValue_IntValue{IntValue: 7}}
 		case 3:
+			return &v11.AnyValue{Value: &v11.AnyValue_BoolValue{BoolValue: true}}
+		case 4:
+			return &v11.AnyValue{} // oneof unset
+		case 5:
 			return &v11.AnyValue{Value: &v11.AnyValue_BytesValue{BytesValue: []byte{1, 2}}}
 		}
 		return &v11.AnyValue{Value: &v11.AnyValue_StringValue{StringValue: rng.Ident(6)}}
@@ -471,8 +478,8 @@ func c05GenOtlpLogs(rng *h.Rng, odd bool) c05Case {
 }
 
 // ---------------------------------------------------------------- Prometheus remote write
-// The total number of points stays below 1000: above it the pinned decoder sizes the type array by the whole
-// series (Appendix A1, owned by C02/C03), which this check would report as a non-rectangular block.
+// Some requests cross the decoder's flush limit of 1000 points (Appendix A1, fixed by C03: a regression would
+// show as a non-rectangular samples block).
 func c05GenProm(rng *h.Rng, odd bool) c05Case {
 	var sh c05Shapes
 	path := h.Pick(rng, []string{"/api/v1/prom/remote/write", "/v1/prom/remote/write", "/prom/remote/write", "/api/prom/push"})
@@ -499,6 +506,11 @@ func c05GenProm(rng *h.Rng, odd bool) c05Case {
 		if odd && rng.Chance(15) {
 			k = 0
 			sh.add("series-without-samples")
+		}
+		if rng.Chance(6) {
+			// crosses the decoder's flush limit of 1000 points (A1, fixed by C03), possibly more than once
+			k = h.Pick(rng, []int{999, 1000, 1001, 1500, 2003})
+			sh.add("over-1000-points")
 		}
 		if odd && rng.Chance(10) {
 			ts.Labels = nil
@@ -615,9 +627,6 @@ func c05GenZipkin(rng *h.Rng, odd bool, nd bool) c05Case {
 		n = 0
 		sh.add("no-spans")
 	}
-	// NDJSON: the pinned decoder keeps the ids of the previous line (Appendix A9, fixed by C06): a span without
-	// ids is only generated while no earlier line of the document had any, where both behaviours agree.
-	seenIds := false
 	for i := 0; i < n; i++ {
 		if odd && rng.Chance(6) {
 			spans = append(spans, h.Pick(rng, []string{"5", `"str"`, "[1]", "null"}))
@@ -631,12 +640,9 @@ func c05GenZipkin(rng *h.Rng, odd bool, nd bool) c05Case {
 			sh.add("span-field-kind")
 			continue
 		}
-		allowMissing := !(nd && seenIds)
+		allowMissing := true // the NDJSON decoder resets its state per line now (A9 fixed): a span without ids is rejected anywhere
 		tid, tj := c05GenZipkinID(rng, odd, "traceId", 32, &sh, allowMissing)
 		sid, sj := c05GenZipkinID(rng, odd, "id", 16, &sh, allowMissing)
-		if tid == 3 || sid == 3 {
-			seenIds = true
-		}
 		fs := []string{}
 		for _, f := range []string{tj, sj} {
 			if f != "" {
@@ -699,20 +705,22 @@ func c05GenOKVs(rng *h.Rng, odd bool, max int, sh *c05Shapes) []c05Okv {
 	var out []c05Okv
 	for i := 0; i < n; i++ {
 		k := 6 + rng.Intn(4)
-		if rng.Chance(40) {
+		if rng.Chance(55) {
 			k = rng.Intn(6)
 		}
-		// a service-name attribute (keys 0..4) always carries a value here: `val.Value.Value` in otlpGetServiceNames
-		// still dereferences it (placed in the model as derefRaw), but that function is being rewritten by the C06
-		// fixes, so the correspondence does not pin its behaviour for an absent value
-		out = append(out, c05Okv{k, c05GenAnyV(rng, odd, 2, k >= 5, sh)})
+		v := c05GenAnyV(rng, odd, 2, true, sh)
+		if k < 5 && v.kind == 0 {
+			// `val.Value.Value` in otlpGetServiceNames still dereferences it: tamed panic, 500
+			sh.add("service-name-without-value")
+		}
+		out = append(out, c05Okv{k, v})
 	}
 	return out
 }
 func c05OkvTrees(kvs []c05Okv) []string {
 	var t []string
 	for _, kv := range kvs {
-		t = append(t, c05Tl(c05Tn(kv.key), kv.v.tree()))
+		t = append(t, c05Tl(c05Tn(kv.key), kv.v.tree(), c05Tn(c05B2i(kv.v.kind == 1 && kv.v.sk == 0))))
 	}
 	return t
 }
